@@ -415,9 +415,21 @@ pub fn make_spec(pool: &Pool, ix: &PoolIndex, seed: u64, kind: RunKind, allow_in
         Vec::new()
     };
     // function theme: most calls of the run use one function / operator of one evaluator
-    let bucket: Option<usize> = if !matches!(kind, RunKind::Long { .. }) && !ix.fn_buckets.is_empty() && r.chance(0.4) {
+    // (long histories are themed less often: adaptive state that switches on after enough work of one kind)
+    let is_long = matches!(kind, RunKind::Long { .. });
+    let mut bucket2: Option<usize> = None;
+    let bucket: Option<usize> = if !ix.fn_buckets.is_empty() && r.chance(if is_long { 0.3 } else { 0.4 }) {
         if !ix.hint_buckets.is_empty() && r.chance(0.7) {
-            Some(*r.pick(&ix.hint_buckets))
+            let b = *r.pick(&ix.hint_buckets);
+            // a change that touches several functions: their interaction (state one leaves for the other) is the
+            // likely defect - half of these runs alternate between two of them
+            if ix.hint_buckets.len() >= 2 && r.chance(0.5) {
+                let b2 = *r.pick(&ix.hint_buckets);
+                if b2 != b {
+                    bucket2 = Some(b2);
+                }
+            }
+            Some(b)
         } else {
             Some(r.below(ix.fn_buckets.len()))
         }
@@ -427,9 +439,33 @@ pub fn make_spec(pool: &Pool, ix: &PoolIndex, seed: u64, kind: RunKind, allow_in
     if rel {
         faults_enabled.push("value_relatives");
     }
+    // "hot placeholder": all themed calls of the run use one placeholder value (many formulas, one input) - traffic
+    // dominated by one argument range, e.g. only large factorials
+    // In a long themed history the hot placeholder changes every few hundred calls ("sweep"): the history passes
+    // through stretches of small, of mid-range and of huge arguments, in random order.
+    let mut themed_entries: Vec<u32> = Vec::new();
+    let mut sweep: Vec<Vec<u32>> = Vec::new();
+    let mut sweep_len = 0usize;
     if let Some(b) = bucket {
         faults_enabled.push("function_theme");
-        let _ = b;
+        let list = &ix.fn_buckets[b].2;
+        if is_long && r.chance(0.6) {
+            let mut by_ph: std::collections::BTreeMap<Ph, Vec<u32>> = std::collections::BTreeMap::new();
+            for e in list.iter() {
+                by_ph.entry(pool.entries[*e as usize].call.ph).or_default().push(*e);
+            }
+            sweep = by_ph.into_values().collect();
+            r.shuffle(&mut sweep);
+            sweep_len = [200usize, 500, 1000][r.below(3)];
+            faults_enabled.push("placeholder_sweep");
+        } else if bucket2.is_none() && r.chance(0.3) {
+            let ph = pool.entries[*r.pick(list) as usize].call.ph;
+            let same: Vec<u32> = list.iter().copied().filter(|e| pool.entries[*e as usize].call.ph == ph).collect();
+            if same.len() >= 3 {
+                themed_entries = same;
+                faults_enabled.push("hot_placeholder");
+            }
+        }
     }
     let total_calls_long = if let RunKind::Long { calls } = kind { calls } else { 0 };
     // long histories: half of them concentrate on one evaluator, so that per-evaluator state (a bounded cache,
@@ -447,7 +483,7 @@ pub fn make_spec(pool: &Pool, ix: &PoolIndex, seed: u64, kind: RunKind, allow_in
     // long histories: 40% of them draw every call from a small working set (an application re-evaluates a bounded set
     // of formulas), so that each formula is seen many times: adaptive state that switches on after N sightings,
     // per-formula caches at capacity, aliases that go stale on eviction. Whole sibling groups go in together.
-    let working_set: Vec<u32> = if total_calls_long > 0 && r.chance(0.4) {
+    let working_set: Vec<u32> = if total_calls_long > 0 && bucket.is_none() && r.chance(0.55) {
         let k = [60usize, 150, 300, 600][r.below(4)];
         let mut ws: Vec<u32> = Vec::with_capacity(k + 16);
         let mut guard = 0;
@@ -521,11 +557,20 @@ pub fn make_spec(pool: &Pool, ix: &PoolIndex, seed: u64, kind: RunKind, allow_in
                 calls.push(*r.pick(&working_set));
                 continue;
             }
-            if let Some(b) = bucket {
+            if let Some(b0) = bucket {
                 if r.chance(0.75) {
+                    let b = match bucket2 {
+                        Some(b2) if r.chance(0.5) => b2,
+                        _ => b0,
+                    };
                     let pan = &ix.fn_bucket_panics[b];
                     if !pan.is_empty() && r.chance(0.12) {
                         calls.push(*r.pick(pan));
+                    } else if !sweep.is_empty() {
+                        let seg = &sweep[(calls.len() / sweep_len) % sweep.len()];
+                        calls.push(*r.pick(seg));
+                    } else if !themed_entries.is_empty() {
+                        calls.push(*r.pick(&themed_entries));
                     } else {
                         calls.push(*r.pick(&ix.fn_buckets[b].2));
                     }
